@@ -70,3 +70,24 @@ Example nv_quartic_euler_alternatives :
 Proof. eexists. split; [vm_compute; reflexivity | reflexivity]. Qed.
 Example nv_degree0 : solve_poly [0] = Ok SDomain /\ solve_poly [5] = Ok SEmpty /\ solve_poly [1; 0; 0; 0; 0; 1] = Ok SCondition.
 Proof. repeat split; vm_compute; reflexivity. Qed.
+
+(* the hypotheses of C30_quartic_roots_sound / C30_solve_poly_exact hold on Qc for quartics
+   whose closed forms fold to rationals: biquadratic branch, zero constant term, and Euler's
+   branch with a double root (the resolvent then has rational roots that are squares) *)
+Example nv_quartic_local_hyps_biquadratic :
+  forall e, In e (solve_poly_radicals [4; 0; -5; 0; 1]) -> rad_okK QcK e.
+Proof. vm_compute. intuition (subst; exact I). Qed.
+Example nv_quartic_local_hyps_euler :
+  forall e, In e (solve_poly_radicals [-10; 23; -15; 1; 1]) -> rad_okK QcK e.
+Proof. vm_compute. intuition (subst; exact I). Qed.
+Example nv_quartic_euler_model :
+  solve_poly [-10; 23; -15; 1; 1] = Ok (SFinite [[RQ 1; RQ 2; RQ (-5)]; [RQ 1; RQ 2; RQ (-5)]]).
+Proof. vm_compute. reflexivity. Qed.
+(* and the conclusion of C30_solve_poly_exact, instantiated: over Qc the roots of
+   x^4 - 5x^2 + 4 are exactly 2, -2, 1, -1 *)
+Example nv_solve_poly_exact_instance :
+  forall x : Qc, pevalK QcK [4; 0; -5; 0; 1] x = 0%Qc <-> valsK QcK [RQ 2; RQ (-2); RQ 1; RQ (-1)] x.
+Proof.
+  pose proof (K_solve_poly_exact_local QcK [4; 0; -5; 0; 1] _ nv_quartic_local_hyps_biquadratic nv_quartic_biquadratic) as H.
+  rewrite sres_specK_unfold in H. destruct H as [_ H]. apply H. left. reflexivity.
+Qed.
